@@ -185,10 +185,17 @@ def run_shard(spec, tier, seed, budget_s):
         # property values are rich single-line texts (quotes, backslashes, braces ...); everything else stays plain,
         # free text at the other sites is C13's business
         rich = gen.Texts(rng, 'rich')
+        kwkeys = rng.random() < 0.3       # keys that merely start with a settings keyword are ordinary keys
+        n_ = [0]
+
+        def key(k_):
+            n_[0] += 1
+            return rng.choice(['nullable', 'unique_key', 'pkey', 'not_null_flag', 'incrementor', 'primary_key_id', 'note_x', 'defaults',
+                               'refs', 'types', 'name_x', 'indexes_x', 'PKEY', 'Uniq']) + str(n_[0]) if kwkeys else k_
         for t in doc.tables:
-            t.props = [(k_, rich.line('pv').replace("'''", "''")) for k_, v_ in t.props]
+            t.props = [(key(k_), rich.line('pv').replace("'''", "''")) for k_, v_ in t.props]
             for c in t.columns:
-                c.props = [(k_, rich.line('cv').replace("'''", "''")) for k_, v_ in c.props]
+                c.props = [(key(k_), rich.line('cv').replace("'''", "''")) for k_, v_ in c.props]
         check(sh, doc, f'{seed}-{i}-{k}', 'random')
     return sh
 
